@@ -32,7 +32,7 @@ let cmp_of : string -> cmp = function "eq" -> CEq | "ne" -> CNe | "lt" -> CLt | 
 let dir_of = function "fwd" -> Fwd | "rev" -> Rev | s -> failwith s
 let op_of s =
   match String.split_on_char ':' s with
-  | ["str"] -> OpStr | ["bool"] -> OpBool | ["iter"] -> OpIter | ["len"] -> OpLen | ["hash"] -> OpHash
+  | ["str"] -> OpStr | ["bool"] -> OpBool | ["iter"] -> OpIter | ["aiter"] -> OpAiter | ["len"] -> OpLen | ["hash"] -> OpHash
   | ["pos"] -> OpPos | ["neg"] -> OpNeg | ["int"] -> OpInt | ["float"] -> OpFloat | ["call"] -> OpCall | ["callt"] -> OpCallT
   | ["getattr"] -> OpGetAttr | ["getdunder"] -> OpGetDunder | ["getitem"] -> OpGetItem
   | ["isdefined"] -> OpIsDefined | ["isundefined"] -> OpIsUndefined | ["default"] -> OpDefault
